@@ -26,6 +26,7 @@ import (
 	"strconv"
 	"strings"
 	"sync"
+	"sync/atomic"
 	"syscall"
 	"time"
 )
@@ -630,12 +631,23 @@ func (pc *Parent) runPool(cases []Case) {
 	close(jobs)
 	outc := make(chan chunkOutcome, nch)
 	var wg sync.WaitGroup
+	// development aid for the seeded-change matrix (LUNARMON_FAILFAST=1): once a chunk has come back with a violation
+	// no further chunks are started; the verdict is settled and only witnesses are lost
+	failFast := os.Getenv("LUNARMON_FAILFAST") == "1"
+	var stop int32
 	for k := 0; k < pc.Workers; k++ {
 		wg.Add(1)
 		go func() {
 			defer wg.Done()
 			for i := range jobs {
-				outc <- pc.runChunk(i, chunks[i], pc.chunkTimeout(), exe, nil)
+				if failFast && atomic.LoadInt32(&stop) == 1 {
+					continue
+				}
+				o := pc.runChunk(i, chunks[i], pc.chunkTimeout(), exe, nil)
+				if failFast && (o.failed || (o.res != nil && o.res.NViol > 0)) {
+					atomic.StoreInt32(&stop, 1)
+				}
+				outc <- o
 			}
 		}()
 	}
